@@ -326,7 +326,7 @@ Definition prodb (g : grammar) (pf : nat) (nid : nat) : bool := nth nid (prod_tb
 Definition opt_none {A} (o : option A) : bool := match o with None => true | Some _ => false end.
 
 (* the constructs on which Model/Peg.v and this semantics provably agree; [pr] = productive.
-   Admitted: suppression anywhere (a suppressed node is not productive, so it cannot be a choice
+   Inside the class: suppression anywhere (a suppressed node is not productive, so it cannot be a choice
    alternative or a repetition element), predicates that are not (live) rule roots, separators
    (with the trailing-separator variant [tsep]), rule-level ws/skipws on sequences and choices. *)
 Definition live_root (nd : node) : bool := n_root nd && negb (n_suppress nd).
